@@ -68,7 +68,13 @@ def run(ctx):
         reps = ctx.driver.batch(reqs)
         for i, (doc, g, _) in enumerate(batch):
             r1, r2 = reps[2 * i], reps[2 * i + 1]
-            pred, succ, ev = g.predecessors(), g.successors(), g.discrete_demographic_events()
+            try:
+                pred, succ, ev = g.predecessors(), g.successors(), g.discrete_demographic_events()
+            except Exception as e:  # noqa: BLE001  a view of a valid graph must exist
+                ctx.count({"names": [d.name for d in g.demes], "raised": True}, True, tags=["view_raised"])
+                ctx.violation(f"ancestry views: a view of a valid graph raises {type(e).__name__} ({str(e)[:80]})", {"document": doc},
+                              python=py_repro(doc, "g.predecessors(), g.successors(), g.discrete_demographic_events()"))
+                continue
             struct = [[d.ancestors, d.start_time in [g[a].end_time for a in d.ancestors]] for d in g.demes]
             ctx.count({"ancestry": struct, "names": [d.name for d in g.demes]}, any(d.ancestors for d in g.demes),
                       tags=[f"splits={len(ev['splits'])}", f"branches={len(ev['branches'])}",
